@@ -563,14 +563,14 @@ KNOWN_CLASSES = {
 
 SUBCHECKS = [
     SubCheck("laws", check_laws, strategy=_laws_strategy, enumerate=_laws_enum,
-             budget={"quick": 20000, "thorough": 1000000}, timeout={"quick": 5, "thorough": 5},
+             budget={"quick": 10000, "thorough": 800000}, timeout={"quick": 5, "thorough": 5},
              exhaustive="all 41^3 triples over the 41-point probability grid (0, denormal, 1e-300 ... 1-1e-16, 1)"),
     SubCheck("log_image", check_log_image, strategy=_log_image_strategy, enumerate=_log_image_enum,
-             budget={"quick": 20000, "thorough": 1000000}, timeout={"quick": 5, "thorough": 5},
+             budget={"quick": 10000, "thorough": 800000}, timeout={"quick": 5, "thorough": 5},
              exhaustive="all 41^2 pairs over the probability grid; 15 fixed weight lists and all triples over "
                         "{0,1e-12,0.1,0.25,1/3,0.5} with sum <= 1 for ad_complement"),
     SubCheck("symbolic", check_symbolic, strategy=_sym_strategy, enumerate=_sym_enum,
-             budget={"quick": 6000, "thorough": 300000}, timeout={"quick": 5, "thorough": 5},
+             budget={"quick": 4000, "thorough": 300000}, timeout={"quick": 5, "thorough": 5},
              exhaustive="all 7^3 operand triples over {0, 1, p, 0.5, (p + q), q*0.25, (1-r)} with p=0.3 q=0.6 r=0.2"),
     SubCheck("base_defaults", check_base_defaults, strategy=_base_strategy, enumerate=_base_enum,
              budget={"quick": 800, "thorough": 20000}, timeout={"quick": 5, "thorough": 5},
